@@ -337,6 +337,19 @@ def main(argv=None):
             except Exception as ex:
                 fo = None
             if fo and fo.get("confirmed"):
+                # an oracle that demonstrates a listed known finding (its name is given as `oracle=<name>` in the finding's
+                # text) fails on the unchanged tree too: it is printed as a known finding and does not make a violation
+                viol = re.findall(r"ORACLE (\S+): VIOLATED", fo.get("output") or "")
+                listed = set()
+                for k in known:
+                    listed.update(re.findall(r"oracle=([\w:.\-]+)", k["text"]))
+                new_viol = [v for v in viol if v not in listed]
+                for v in viol:
+                    if v in listed:
+                        print("KNOWN-FINDING: property=%s concrete oracle %s (listed in known_findings.txt)" % (prop, v))
+                if viol and not new_viol:
+                    fo["confirmed"] = False
+            if fo and fo.get("confirmed"):
                 rpath = os.path.join(replay_dir, "%s-fallback.json" % prop)
                 json.dump(fo, open(rpath, "w"), indent=1, default=str)
                 print("VIOLATION property=%s replay=%s obligation=concrete-oracle(engine could not model the code)" % (prop, rpath))
